@@ -2180,6 +2180,9 @@ Proof.
   - destruct (vmux s u); [apply inv_mux_clear_all|]; exact H.
   - destruct (vmux s u); [apply (inv_mux_shift true); assumption|exact H].
   - destruct (vmux s u); [apply (inv_mux_shift false); assumption|exact H].
+  - destruct (vmsg s m); [|exact H]. unfold step_resize_bus. destruct (bytes <? 0); [exact H|]. destruct (gbytes s m =? bytes); [exact H|].
+    destruct (2 ^ 60 - 1 <? bytes); [exact H|]. destruct (lim <? bytes); [exact H|]. apply inv_resize; exact H.
+  - destruct (vsig s x); exact H.
 Qed.
 
 Lemma inv_init : InvA init.
